@@ -36,10 +36,13 @@ def pva_strategy(max_lat=85.0, max_pitch=85.0, alt=(-500.0, 20000.0), max_speed=
         'alt': st.one_of(st.sampled_from([0.0, alt[0], alt[1]]), st.floats(alt[0], alt[1])),
         'speed': speed_strategy(max_speed),
         'vdir': st.lists(st.floats(-1, 1), min_size=3, max_size=3),
-        'roll': st.one_of(st.sampled_from([0.0, 180.0, -180.0, 90.0]), st.floats(-180, 180)),
+        'roll': st.one_of(st.sampled_from([0.0, 180.0, -180.0, 90.0]), st.floats(-180, 180), st.floats(-180, 180),
+                          st.floats(5, 175), st.floats(-175, -5)),
         'pitch': st.one_of(st.sampled_from([0.0, max_pitch, -max_pitch]), st.floats(-max_pitch, max_pitch),
-                           st.floats(-max_pitch, max_pitch)),
-        'heading': st.one_of(st.sampled_from([0.0, 180.0, -180.0, 90.0, -90.0, 179.999]), st.floats(-180, 180)),
+                           st.floats(5, max_pitch), st.floats(-max_pitch, -5),
+                           st.floats(max_pitch - 5, max_pitch), st.floats(-max_pitch, -max_pitch + 5)),
+        'heading': st.one_of(st.sampled_from([0.0, 180.0, -180.0, 90.0, -90.0, 179.999]), st.floats(-180, 180),
+                             st.floats(5, 85), st.floats(95, 175), st.floats(-175, -95), st.floats(-85, -5)),
     })
 
 
